@@ -37,3 +37,5 @@ CFG = dict(
     ],
     timeout=900,
 )
+
+CFG["rule"] += ' C07X: the same with, in addition, a query key that cannot be applied (through a repeated / map field): refusing is fine, a handler that is reached sees the captures. C07W also with an empty text / binary frame sent before the first message.'
